@@ -77,6 +77,7 @@ type Pipe struct {
 	FailOnce    bool   // only the WFailAt-th write call fails; later ones are accepted (and counted in AfterErr)
 	NetErr      bool   // injected failures are net.Errors with Timeout() and Temporary() true
 	TempErr     bool   // injected failures are net.Errors with Temporary() true and Timeout() false
+	ShortErr    bool   // a failing write reports io.ErrShortWrite (a transport that took part of the bytes and says so)
 	// Transient: byte ranges [from, to) of In inside which one Read (the
 	// first that starts there, chosen by TransientSalt) fails with a
 	// temporary net.Error and delivers nothing; the next Read goes on as if
@@ -321,6 +322,9 @@ func (p *Pipe) Write(b []byte) (int, error) {
 		p.wfailed = true
 		p.R.Fault("write_fail")
 		p.R.D.Add(uint64(n)<<8 | 0xF1)
+		if p.ShortErr {
+			return n, io.ErrShortWrite
+		}
 		return n, p.injected()
 	}
 	p.Out = append(p.Out, b...)
